@@ -67,13 +67,13 @@ def check(ctx):
     # mechanisms this property rests on (see shared.py): a change there is reported here as well
     from . import shared as _sh
 
-    ctx.run(_sh.path_tokenisers)
-    ctx.run(_sh.gaf_reader)
-    ctx.run(_sh.graph_loader)
-    ctx.run(_sh.contig_paths)
-    ctx.run(_sh.index_build)
-    ctx.run(_sh.cli_layer, "gaftools.cli.view")
-    ctx.run(_sh.cli_layer, "gaftools.cli.index")
+    ctx.run_shared(_sh.path_tokenisers)
+    ctx.run_shared(_sh.gaf_reader)
+    ctx.run_shared(_sh.graph_loader)
+    ctx.run_shared(_sh.contig_paths)
+    ctx.run_shared(_sh.index_build)
+    ctx.run_shared(_sh.cli_layer, "gaftools.cli.view")
+    ctx.run_shared(_sh.cli_layer, "gaftools.cli.index")
 
 
 # ---------------------------------------------------------------------------------------------
